@@ -157,6 +157,7 @@ def recipes():
         Recipe("probability_of_false_detection", g_binary, lambda x, **k: K.probability_of_false_detection(x[0], x[1], **k), weights=True, kind="ratio", obs_extra=True),
         Recipe("brier_score", g_prob, lambda x, **k: P.brier_score(x[0], x[1], **k), dataset=P.brier_score, weights=True, obs_extra=True),
         Recipe("roc_curve_data", g_prob, lambda x, **k: P.roc_curve_data(x[0], x[1], [0, 0.25, 0.5, 0.75, 1], **k), lazy=False, weights=True, kind="ratio", obs_extra=True),
+        Recipe("roc_curve_data_unchecked", g_prob, lambda x, **k: P.roc_curve_data(x[0], x[1], [0, 0.25, 0.5, 0.75, 1], check_args=False, **k), lazy=False, weights=True, kind="ratio", obs_extra=True),
         Recipe("binary_discretise_proportion", g_point, lambda x, **k: PR.binary_discretise_proportion(x[0], [1, 2], ">=", **k)),
         Recipe("contingency_table", g_point, lambda x, **k: K.ThresholdEventOperator().make_contingency_manager(x[0], x[1], event_threshold=2).transform(**k).get_table(), lazy=False, obs_extra=True),
         Recipe("contingency_table_two_step", g_point,
